@@ -1,6 +1,6 @@
 (* corollaries of the simulation theorem used by Props/C09.v and Props/C18.v *)
-From Coq Require Import List NArith Bool.
-From MoSql Require Import Model.Peg Model.PegSim Proofs.PegProofs Proofs.PegSimProofs Proofs.PegLog.
+From Coq Require Import List NArith Bool Lia.
+From MoSql Require Import Model.Peg Model.PegSim Proofs.PegProofs Proofs.PegSimProofs Proofs.PegLog Proofs.PegMono.
 Import ListNotations.
 Local Open Scope N_scope.
 
@@ -131,3 +131,24 @@ Lemma C09_same_derivation_pf : forall T o1 o2 len1 len2 phi root w0 f,
   fst (parse_all T o2 len2 f root w0) = mapres phi (fst (parse_all T o1 len1 f root w0)) /\
   tl (snd (parse_all T o2 len2 f root w0)) = map (mapq phi) (tl (snd (parse_all T o1 len1 f root w0))).
 Proof. intros. apply parse_all_same_table; auto. Qed.
+
+(* the answer does not depend on the fuel, with no condition on the table *)
+Lemma C09_fuel_monotone_pf : forall T o len f1 f2 root w0, (f1 <= f2)%nat ->
+  is_abort (fst (parse_all T o len f1 root w0)) = false -> parse_all T o len f2 root w0 = parse_all T o len f1 root w0.
+Proof. intros. apply parse_all_mono; auto. Qed.
+
+(* the strong form for any two amounts of fuel that suffice *)
+Lemma C09_same_derivation_any_fuel_pf : forall T o1 o2 len1 len2 phi root w0 f1 f2,
+  (forall a b, a < b -> phi a < phi b) -> len2 = phi len1 ->
+  o2 (QS w0 0) = phi (o1 (QS w0 0)) ->
+  (forall q, In q (snd (parse_all T o1 len1 f1 root w0)) -> comm o1 o2 phi q) ->
+  is_abort (fst (parse_all T o1 len1 f1 root w0)) = false -> is_abort (fst (parse_all T o2 len2 f2 root w0)) = false ->
+  fst (parse_all T o2 len2 f2 root w0) = mapres phi (fst (parse_all T o1 len1 f1 root w0)) /\
+  tl (snd (parse_all T o2 len2 f2 root w0)) = map (mapq phi) (tl (snd (parse_all T o1 len1 f1 root w0))).
+Proof.
+  intros T o1 o2 len1 len2 phi root w0 f1 f2 Hm Hl H0 Hlog A1 A2.
+  pose (f := Nat.max f1 f2).
+  assert (E1 : parse_all T o1 len1 f root w0 = parse_all T o1 len1 f1 root w0) by (apply parse_all_mono; [unfold f; lia|exact A1]).
+  assert (E2 : parse_all T o2 len2 f root w0 = parse_all T o2 len2 f2 root w0) by (apply parse_all_mono; [unfold f; lia|exact A2]).
+  rewrite <- E1, <- E2. apply parse_all_same_table; auto; rewrite E1; auto.
+Qed.
